@@ -21,12 +21,10 @@ def detorderCase (id : String) (payload : List Sexp) : List String :=
     let want := (atoms (p.field? "want")).headD ""
     let lvl := (atoms (p.field? "pkglevel")).headD ""
     let defs : List Def := ((p.field? "defs").map Sexp.args |>.getD []).filterMap (fun d => match d with
-      | .list [.atom n, .atom k, .atom f] => some { name := n, isTypeName := k == "type", file := f }
+      | .list [.atom n, .atom k, .atom f] => some { name := n, isTypeName := k == "type", file := f, pkgLevel := f == lvl || k != "type" }
       | _ => none)
-    let cands := goFileCandidates defs want
-    -- model: the set of results over all iteration orders = the files of all matching TypeName definitions
-    both id [("gofile", csv (uniqSorted cands))] [("gofile", if lvl == "" then "-" else lvl)]
-      (if cands.length ≤ 1 then "WF" else "F_getGoFile")
+    -- since f3054bd: a package-scope look-up; every input is well-formed
+    both id [("gofile", let r := getGoFile defs want; if r == "" then "-" else r)] [("gofile", if lvl == "" then "-" else lvl)] "WF"
   | .atom "aliasdup" :: rest =>
     let p := Sexp.list (.atom "p" :: rest)
     let al : Entries String String := ((p.field? "alias").map Sexp.args |>.getD []).filterMap (fun d => match d with
